@@ -38,6 +38,8 @@
 #include <osmium/io/detail/opl_parser_functions.hpp>
 #include <osmium/io/detail/string_util.hpp>
 #include <osmium/io/detail/xml_output_format.hpp>
+#include <osmium/io/reader.hpp>
+#include <osmium/io/xml_input.hpp>
 #include <osmium/memory/buffer.hpp>
 #include <osmium/osm/changeset.hpp>
 #include <osmium/osm/node.hpp>
@@ -1044,6 +1046,22 @@ void case_writer(uint64_t idx, vh::Rng& r) {
         }
         vh::count("writer_xml_blocks");
         vh::evaluated();
+        // ---- the same document through the library's own XML reader (the parser that has to
+        // undo the writer's escaping; expat above only tells whether the *document* is right)
+        if (!fl) {
+            const std::string odoc = std::string(XML_DECL) + "<osm version=\"0.6\" generator=\"c14\">\n" + out + "</osm>\n";
+            osmium::memory::Buffer back{1024UL * 1024UL, osmium::memory::Buffer::auto_grow::yes};
+            std::string rerr;
+            try {
+                static osmium::thread::Pool pool{1, 4};
+                osmium::io::Reader reader{osmium::io::File{odoc.data(), odoc.size(), "osm"}, pool, osmium::osm_entity_bits::all};
+                while (osmium::memory::Buffer b = reader.read()) { back.add_buffer(b); back.commit(); }
+                reader.close();
+            } catch (const std::exception& e) { rerr = e.what(); }
+            if (!rerr.empty()) vh::violation("XML output block -> XML reader: output of the writer is rejected by the library's XML parser", rerr + "; output: " + out.substr(0, 1200));
+            else compare_sites("XML output block -> XML reader", collect(buf, true, true), collect(back, true, true), fl, out);
+            vh::count("writer_xml_blocks_through_the_xml_reader");
+        }
     }
     if (idx == 2) vh::sample_str(vh::fmt("writer case: %zu random strings as users, tag keys/values, roles, comment user/text of node+way+relation+changeset", all.size()));
 }
